@@ -49,18 +49,21 @@ class Prog:
         self.features = set()
         self.cls = 'main'    # main | boolop_value | ternary_rhs | ternary_nested | ternary_call | attr_name | unsupported:<c>
         self.out_attr = {}   # port name -> attribute name (attr_name class)
+        self.ctor = None     # constructor-shape family: (lines before the ports, lines between in- and out-ports, lines in place of the state section)
 
     def source(self):
         args = [n for n, _ in self.ins] + [n for n, _ in self.outs] + [n for n, _ in self.consts]
         L = ['import py4hw', '', '', 'class %s(py4hw.Logic):' % self.name,
              '    def __init__(self, parent, name, %s):' % ', '.join(args),
              '        super().__init__(parent, name)']
+        pre, mid, post = self.ctor if self.ctor is not None else ([], [], ['self.%s = %d' % (n, v) for n, v in self.states])
+        L += ['        ' + x for x in pre]
         for n, w in self.ins:
             L.append("        self.%s = self.addIn('%s', %s)" % (n, n, n))
+        L += ['        ' + x for x in mid]
         for n, w in self.outs:
             L.append("        self.%s = self.addOut('%s', %s)" % (self.out_attr.get(n, n), n, n))
-        for n, v in self.states:
-            L.append('        self.%s = %d' % (n, v))
+        L += ['        ' + x for x in post]
         for n, v in self.consts:
             L.append('        self.%s = %s' % (n, n))
         L.append('')
@@ -86,6 +89,7 @@ class PGen:
         self.p.cls = cls
         self.inject = inject
         self.injected = False
+        self.min_states = 0
         self.small = rnd.random() < 0.6      # small constants keep more steps inside the domain
         self.big_consts = cls == 'main' and rnd.random() < 0.15
         # 64-bit ports with constants that need more than 53 bits (no state variables: those are limited to 32 bits)
@@ -100,7 +104,7 @@ class PGen:
             p.outs.append(('o%d' % i, 64 if self.wide else 32 if self.big_consts else rnd.choice(WIDTHS_OUT)))
         self.aug_only = set()
         if p.kind == 'clock' and not self.wide:
-            for i in range(rnd.randint(0, 2)):
+            for i in range(rnd.randint(self.min_states, 2)):
                 p.states.append(('s%d' % i, rnd.choice([0, 0, 1, 3, rnd.randint(0, 9)])))
                 if rnd.random() < 0.3:
                     self.aug_only.add('s%d' % i)       # a state only ever changed by augmented assignment (a counter, a flag set)
@@ -458,6 +462,87 @@ CONSTRUCTS = MATCH_FAMILY + ['aug_other', 'ternary_cond', 'not_in', 'is_not', 'a
                              'walrus', 'tuple', 'chained_cmp', 'for', 'while', 'multi_target', 'lambda', 'in', 'is', 'return']
 
 
+# the constructor-shape family (own workload, see run_check): every statement shape a constructor may use to give a state attribute its
+# power-up value -- one literal, the same attribute assigned again (same value, other value, several times, interleaved with ports and
+# with other states, a defaults section followed by an override section), bool literals, mixed bool/int, other literal spellings, and
+# the shapes outside the literal form (refused or judged like any accepted program). Python keeps the LAST value assigned; the oracle is
+# the co-simulation from power-up (state trajectory starts with the constructor's values).
+CTOR_REASSIGN = ['reassign_same', 'reassign_diff', 'reassign_thrice', 'reassign_interleaved', 'reassign_to_zero', 'reassign_from_zero',
+                 'reassign_all', 'bool_then_int', 'int_then_bool', 'bool_then_bool']
+CTOR_SHAPES = CTOR_REASSIGN + ['bool_true', 'bool_false', 'states_before_ports', 'states_between_ports', 'hex_literal', 'underscore_literal',
+                               'multi_target', 'neg_literal', 'expr_literal', 'aug_in_ctor', 'tuple_assign', 'local_name', 'ann_assign',
+                               'ternary_literal', 'call_literal']
+
+
+def apply_ctor(prog, shape, rnd):
+    """Sets prog.ctor for the shape. Returns True when the first and the last literal given to some state differ (deciding case)."""
+    st = [n for n, _ in prog.states]
+    s0, s1 = 'self.' + st[0], 'self.' + st[-1]
+    default = ['self.%s = %d' % (n, v) for n, v in prog.states]
+    rest = default[1:]
+    a = rnd.randint(0, 9)
+    b = rnd.choice([x for x in range(10) if x != a])
+    c = rnd.choice([x for x in range(10) if x != b])
+    nz = rnd.randint(1, 9)
+    pre, mid, post = [], [], default
+    differ = False
+    if shape == 'reassign_same':
+        post = default + [default[0]]
+    elif shape == 'reassign_diff':
+        post, differ = ['%s = %d' % (s0, a)] + rest + ['%s = %d' % (s0, b)], True
+    elif shape == 'reassign_thrice':
+        post, differ = ['%s = %d' % (s0, a)] + rest + ['%s = %d' % (s0, b), '%s = %d' % (s0, c)], a != c
+    elif shape == 'reassign_interleaved':
+        pre, mid, post, differ = ['%s = %d' % (s0, a)], rest + ['%s = %d' % (s0, c)], ['%s = %d' % (s0, b)], a != b
+    elif shape == 'reassign_to_zero':
+        post, differ = ['%s = %d' % (s0, nz)] + rest + ['%s = 0' % s0], True
+    elif shape == 'reassign_from_zero':
+        post, differ = ['%s = 0' % s0] + rest + ['%s = %d' % (s0, nz)], True
+    elif shape == 'reassign_all':
+        post, differ = ['self.%s = 0' % n for n in st] + ['self.%s = %d' % (n, v + 1 + i) for i, (n, v) in enumerate(prog.states)], True
+    elif shape == 'bool_then_int':
+        post, differ = ['%s = True' % s0] + rest + ['%s = %d' % (s0, nz + 1)], True
+    elif shape == 'int_then_bool':
+        post, differ = ['%s = %d' % (s0, nz + 1)] + rest + ['%s = %s' % (s0, rnd.choice(['True', 'False']))], True
+    elif shape == 'bool_then_bool':
+        x = rnd.choice(['True', 'False'])
+        post, differ = ['%s = %s' % (s0, x)] + rest + ['%s = %s' % (s0, 'False' if x == 'True' else 'True')], True
+    elif shape == 'bool_true':
+        post = ['%s = True' % s0] + rest
+    elif shape == 'bool_false':
+        post = ['%s = False' % s0] + rest
+    elif shape == 'states_before_ports':
+        pre, post = default, []
+    elif shape == 'states_between_ports':
+        mid, post = default, []
+    elif shape == 'hex_literal':
+        post = ['%s = %s' % (s0, rnd.choice(['0x1F', '0b101', '0o17', '0xff']))] + rest
+    elif shape == 'underscore_literal':
+        post = ['%s = %s' % (s0, rnd.choice(['1_000', '6_5', '0x1_0']))] + rest
+    elif shape == 'multi_target':
+        post = ['%s = %s = %d' % (s0, s1 if s1 != s0 else 'self.sx', nz)]
+    elif shape == 'neg_literal':
+        post = ['%s = -%d' % (s0, nz)] + rest
+    elif shape == 'expr_literal':
+        post = ['%s = %d + %d' % (s0, a, nz)] + rest
+    elif shape == 'aug_in_ctor':
+        post = default + ['%s += %d' % (s0, nz)]
+    elif shape == 'tuple_assign':
+        post = ['%s, self.sx = %d, %d' % (s0, a, b)] + rest
+    elif shape == 'local_name':
+        post = ['nloc = %d' % nz, '%s = nloc' % s0] + rest
+    elif shape == 'ann_assign':
+        post = ['%s: int = %d' % (s0, nz)] + rest
+    elif shape == 'ternary_literal':
+        post = ['%s = %d if True else %d' % (s0, a, b)] + rest
+    elif shape == 'call_literal':
+        post = ['%s = int(%d)' % (s0, nz)] + rest
+    else:
+        raise ValueError(shape)
+    prog.ctor = (pre, mid, post)
+    return differ
+
+
 # --------------------------------------------------------------------------- loading and running
 
 def load_class(src, name, d):
@@ -790,6 +875,9 @@ def corpus_texts(run=None):
 # --------------------------------------------------------------------------- judging
 
 def classify(prog_cls, kind, res):
+    if res.status == 'invalid_text' and res.unassigned and prog_cls.startswith('ctor:') and prog_cls[5:] not in CTOR_REASSIGN:
+        # same mechanism seen statically: the state whose constructor statement was left out is only ever read by the method
+        return 'ctor_statement_dropped', dict(program_class=prog_cls, when='power-up', what='state')
     if res.status == 'invalid_text' and res.unassigned:
         return 'reads_never_assigned_variable', dict(program_class=prog_cls, kind=kind)
     if res.status == 'invalid_text':
@@ -813,6 +901,9 @@ def classify(prog_cls, kind, res):
     if prog_cls == 'inject:boolop_value':
         # Python and/or return one of the operands, Verilog &&/|| a truth value
         return 'boolop_value_semantics', dict(program_class=prog_cls, verilog_is_truth_value=m['verilog'] in (0, 1), python_is_truth_value=m['python'] in (0, 1))
+    if prog_cls.startswith('ctor:') and prog_cls[5:] not in CTOR_REASSIGN and m.get('when') == 'power-up':
+        # a constructor statement outside the form `self.x = <literal>` was accepted and left out of the initial block
+        return 'ctor_statement_dropped', dict(program_class=prog_cls, when='power-up', what=m['kind'])
     return 'behaviour_differs', dict(program_class=prog_cls, kind=kind, what=m['kind'])
 
 
@@ -843,12 +934,14 @@ def judge(run, label, prog_cls, kind, res, case, src_hash):
                         detail=res.detail, source=case.get('source', '')[:700]))
 
 
-def run_generated(run, d, idx, seed, n_cycles, forced=None):
+def run_generated(run, d, idx, seed, n_cycles, forced=None, ctor=None):
     import py4hw
-    rnd = rng(seed, 'c02-gen', idx) if forced is None else rng(seed, 'c02-construct', idx)
+    rnd = rng(seed, 'c02-ctor', idx) if ctor is not None else rng(seed, 'c02-gen', idx) if forced is None else rng(seed, 'c02-construct', idx)
     kind = 'clock' if rnd.random() < 0.7 else 'propagate'
     r = rnd.random()
-    if forced is not None:
+    if ctor is not None:
+        inject, cls, kind = None, 'ctor:' + ctor, 'clock'
+    elif forced is not None:
         inject, cls = forced, 'inject:' + forced
         if inject.startswith('match_'):
             kind = 'clock'
@@ -862,9 +955,14 @@ def run_generated(run, d, idx, seed, n_cycles, forced=None):
         if inject in ('match_guard', 'match_or'):
             kind = 'clock'
     g = PGen(rnd, kind, cls, inject, tail=(forced is not None and idx % 4 != 3))
-    name = ('G%d_%d' if forced is None else 'K%d_%d') % (os.getpid(), idx)
+    name = ('T%d_%d' if ctor is not None else 'G%d_%d' if forced is None else 'K%d_%d') % (os.getpid(), idx)
+    differ = False
+    if ctor is not None:
+        g.min_states, g.wide, g.big_consts = 1 + idx % 2, False, False
     try:
         prog = g.build(name)
+        if ctor is not None:
+            differ = apply_ctor(prog, ctor, rnd)
         src = prog.source()
     except Exception as e:
         run.count('generator_error')
@@ -949,7 +1047,18 @@ def run_generated(run, d, idx, seed, n_cycles, forced=None):
             case = dict(case, generated_after_cycles=1 + idx % 7)
         except BaseException:
             text = None
-    res = cosim_behavioural(obj, hw, ins, outs, [n for n, _ in prog.states], vecs, kind == 'clock', text=text, power_up=(cls == 'main'))
+    res = cosim_behavioural(obj, hw, ins, outs, [n for n, _ in prog.states], vecs, kind == 'clock', text=text, power_up=(cls == 'main' or ctor is not None))
+    if ctor is not None:
+        run.count('ctor_programs')
+        st = 'refused' if res.status == 'refused' else 'accepted' if res.status in ('compared', 'invalid_text', 'indeterminate') else res.status
+        br = run.extra.setdefault('ctor_shapes', {})
+        br['%s:%s' % (ctor, st)] = br.get('%s:%s' % (ctor, st), 0) + 1
+        if res.status == 'compared':
+            run.count('ctor_programs_compared')
+            if ctor in CTOR_REASSIGN:
+                run.count('ctor_reassigned_state_compared_from_power_up')
+                if differ:
+                    run.count('ctor_reassigned_first_and_last_literal_differ')
     if forced is not None:
         run.count('construct_programs')
         st = 'refused' if res.status == 'refused' else 'accepted' if res.status in ('compared', 'invalid_text', 'indeterminate') else res.status
@@ -1227,6 +1336,15 @@ def run_check(run, tier, seed, shard):
                 run.inconclusive.append('construct corpus: no accepted construct was co-simulated')
             if run.counters.get('match_family_steps_on_unlisted_value', 0) == 0 or run.counters.get('match_family_steps_on_listed_value', 0) == 0:
                 run.inconclusive.append('construct corpus: the accepted match programs never reached a listed / an unlisted subject value')
+        # (g) the constructor-shape family: every way a constructor gives a state attribute its power-up value, each several times
+        n3 = len(CTOR_SHAPES) * (6 if quick else 200)
+        for idx in shard_slice(range(n3), shard):
+            if time.time() > deadline or run.too_many:
+                break
+            run_generated(run, d, idx, seed, cyc, ctor=CTOR_SHAPES[idx % len(CTOR_SHAPES)])
+        if run.counters.get('ctor_programs', 0) and not run.too_many:
+            if run.counters.get('ctor_reassigned_first_and_last_literal_differ', 0) == 0:
+                run.inconclusive.append('constructor shapes: no accepted program that assigns a state attribute twice with different literals was co-simulated from power-up')
     run.extra['programs'] = run.counters.get('programs_compared', 0)
     run.extra['disagreements_checked'] = run.counters.get('steps_in_domain', 0)
     if run.counters.get('programs_compared', 0) == 0:
